@@ -1,9 +1,19 @@
 // C18 harness: the containers of src/utils driven by one operation per line.
 //   <container> <op> [args]      container in {hm, ul, pl, sa, rb, xs, av, po}; one live instance per container,
 //                                "<c> new ..." replaces it.  Exactly one output line per input line.
+//   pf <op> ...                  a FOREST of pools (hierarchy x reference counting), pools named by order of creation
 // iwhmap.c / iwpool.c are included so that the private structs (buckets, lru chain, unit chain) can be printed.
 #include "utils/iwhmap.c"
+// every free() issued by iwpool.c goes through po_free_hook (defined in the pool section below): it tells the harness which
+// pool struct / how many unit blocks are released and in which order, and - in the build without ASan - it fills the block
+// with 0xDD and keeps it in a quarantine instead of recycling it (a read through a stale pointer yields 0xDDDD... and
+// faults, a write is found when the quarantine is scanned).  The ASan build passes the block on to ASan's own quarantine.
+#include <stdlib.h>
+static void po_free_hook(void *p);
+static void pq_flush(void);
+#define free(p_) po_free_hook(p_)
 #include "utils/iwpool.c"
+#undef free
 #include "iwarr.h"
 #include "iwrb.h"
 #include "iwxstr.h"
@@ -713,6 +723,7 @@ static void po_line(int n, char **tv) {
       iwpool_destroy(po);
     }
     po_nch = 0; po_udfree = 0;
+    pq_flush();
     po = op[3] ? iwpool_create_empty() : iwpool_create(strtoul(tv[2], 0, 10));
     printf("ok"); po_state(po); printf("\n");
     return;
@@ -798,6 +809,243 @@ static void po_line(int n, char **tv) {
   }
 }
 
+// ------------------------------------------------------------------------------------------- pool forest
+// pf reset | new <siz|e> | attach <parent|nil> <siz|e> | ref <id> | destroy <id|nil> | freefn <id> | alloc <id> <n> |
+// put <id> <hex> | chk <id> | ud <id> <tok|0> <fn> | udget <id> | uddetach <id> | drain | end
+// Every answer (except reset/end) ends with the releases the call caused, in the order of the free() calls
+//   ev=b<k> (k anonymous blocks: unit heaps + unit headers), d<tok> (user data destructor), f<id> (free(pool)), DF (double free)
+// and with the white-box state of every live pool: id:numrefs:parent:child chain:next:usiz:asiz:units:user data:has free fn
+// ("!" = a pointer that is not a live pool).
+#define PF_MAX 1024
+struct pftok { int tok; int freed; struct pftok *nx; };
+static struct pfe { struct iwpool *p; int live; char **strs; size_t *lens; int nstr; } pf[PF_MAX];
+static int pf_n;
+static struct pftok *pf_toks;
+static char pf_ev[1 << 14];
+static size_t pf_evl;
+static int pf_anon;
+
+static void pf_ev_add(const char *fmt, int v) {
+  if (pf_evl + 24 < sizeof(pf_ev)) {
+    if (pf_evl) pf_ev[pf_evl++] = ',';
+    pf_evl += snprintf(pf_ev + pf_evl, sizeof(pf_ev) - pf_evl, fmt, v);
+  }
+}
+
+static void pf_ev_anon(void) {
+  if (pf_anon) { int k = pf_anon; pf_anon = 0; pf_ev_add("b%d", k); }
+}
+
+#define PQ_MAX (1 << 16)
+static struct { unsigned char *p; size_t n; } pq[PQ_MAX];
+static int pq_n;
+
+// scan (and with `release` hand back) the quarantined blocks; returns the number of blocks written to after free
+static int pq_scan(int release) {
+  int dirty = 0;
+  for (int i = 0; i < pq_n; ++i) {
+    for (size_t j = 0; j < pq[i].n; ++j) if (pq[i].p[j] != 0xDD) { ++dirty; break; }
+    if (release) free(pq[i].p);
+  }
+  if (release) pq_n = 0;
+  return dirty;
+}
+
+static void pq_flush(void) {
+  if (pq_scan(1)) {
+    fflush(stdout);
+    fprintf(stderr, "harness: memory released by iwpool.c was written to after free()\n");
+    abort();
+  }
+}
+
+static void po_free_hook(void *p) {
+  if (!p) return;
+  int id = -1;
+  for (int i = 0; i < pf_n; ++i) if (pf[i].live && pf[i].p == p) { id = i; break; }
+  if (id >= 0) { pf_ev_anon(); pf_ev_add("f%d", id); pf[id].live = 0; } else ++pf_anon;
+#ifdef __SANITIZE_ADDRESS__
+  free(p);
+#else
+  for (int i = 0; i < pq_n; ++i) if (pq[i].p == p) { pf_ev_anon(); pf_ev_add("DF%d", 0); return; }
+  if (pq_n == PQ_MAX) pq_flush();
+  size_t n = malloc_usable_size(p);
+  memset(p, 0xDD, n);
+  pq[pq_n].p = p; pq[pq_n].n = n; ++pq_n;
+#endif
+}
+
+static void pf_ud_free(void *d) {
+  struct pftok *t = d;
+  pf_ev_anon();
+  if (!t) pf_ev_add("d%d", 0);
+  else { pf_ev_add(t->freed ? "d%d!!" : "d%d", t->tok); t->freed = 1; }
+}
+
+static int pf_id_of(const struct iwpool *p) {
+  for (int i = 0; i < pf_n; ++i) if (pf[i].live && pf[i].p == p) return i;
+  return -1;
+}
+
+static void pf_ptr(const struct iwpool *p) {
+  int id = p ? pf_id_of(p) : -1;
+  if (!p) printf("-"); else if (id < 0) printf("!"); else printf("%d", id);
+}
+
+static void pf_tail(void) {
+  pf_ev_anon();
+  printf(" ev=%s |", pf_evl ? pf_ev : "-");
+  for (int i = 0; i < pf_n; ++i) {
+    if (!pf[i].live) continue;
+    struct iwpool *p = pf[i].p;
+    printf(" %d:%d:", i, p->numrefs);
+    pf_ptr(p->parent);
+    printf(":");
+    if (!p->children) printf("-");
+    int n = 0;
+    for (struct iwpool *c = p->children; c; c = c->next, ++n) {
+      if (n) printf(",");
+      if (n > 600) { printf("~"); break; }
+      int id = pf_id_of(c);
+      if (id < 0) { printf("!"); break; }
+      printf("%d", id);
+    }
+    printf(":");
+    pf_ptr(p->next);
+    int nu = 0;
+    for (struct iwpool_unit *u = p->unit; u; u = u->next) ++nu;
+    printf(":%zu:%zu:%d:%d:%d", p->usiz, p->asiz, nu, p->user_data ? ((struct pftok*) p->user_data)->tok : 0,
+           p->user_data_free_fn != 0);
+  }
+  printf("\n");
+}
+
+// drop every reference: pools in the order of creation; a live pool without parent is destroyed numrefs times
+static void pf_drain(void) {
+  for (int i = 0; i < pf_n; ++i) {
+    if (!pf[i].live || pf[i].p->parent) continue;
+    for (int n = pf[i].p->numrefs; n > 0 && pf[i].live; --n) iwpool_destroy(pf[i].p);
+  }
+}
+
+static void pf_cleanup(void) {
+  for (int guard = 0; guard < 4; ++guard) pf_drain();
+  for (int i = 0; i < pf_n; ++i) {
+    free(pf[i].strs); free(pf[i].lens);
+    memset(&pf[i], 0, sizeof(pf[i]));
+  }
+  pf_n = 0;
+  for (struct pftok *t = pf_toks, *nx; t; t = nx) { nx = t->nx; free(t); }
+  pf_toks = 0;
+  pf_evl = 0; pf_ev[0] = 0; pf_anon = 0;
+}
+
+static struct iwpool* pf_arg(const char *s, int *idp) {
+  int i = atoi(s);
+  *idp = i;
+  return (i >= 0 && i < pf_n && pf[i].live) ? pf[i].p : 0;
+}
+
+static void pf_line(int n, char **tv) {
+  const char *op = tv[1];
+  pf_evl = 0; pf_ev[0] = 0; pf_anon = 0;
+  if (!strcmp(op, "reset")) {
+    pf_cleanup();
+    pq_flush();
+    printf("ok\n");
+    return;
+  }
+  if (!strcmp(op, "end")) {
+    int live = 0;
+    for (int i = 0; i < pf_n; ++i) live += pf[i].live;
+    printf("live=%d dirty=%d\n", live, pq_scan(0));
+    fflush(stdout);
+    pf_cleanup();
+    pq_scan(1);
+    return;
+  }
+  if (!strcmp(op, "drain")) {
+    pf_drain();
+    printf("ok"); pf_tail();
+    return;
+  }
+  if (!strcmp(op, "new") || !strcmp(op, "attach")) {
+    int at = op[0] == 'a', q = -1;
+    const char *siz = tv[at ? 3 : 2];
+    struct iwpool *parent = 0;
+    if (at && strcmp(tv[2], "nil")) {
+      parent = pf_arg(tv[2], &q);
+      if (!parent) { printf("dead\n"); return; }
+    }
+    if (pf_n >= PF_MAX) { printf("full\n"); return; }
+    struct iwpool *r;
+    if (!strcmp(siz, "e")) r = at ? iwpool_create_empty_attach(parent) : iwpool_create_empty();
+    else r = at ? iwpool_create_attach(parent, strtoul(siz, 0, 10)) : iwpool_create(strtoul(siz, 0, 10));
+    if (!r) { printf("oom\n"); return; }
+    pf[pf_n].p = r; pf[pf_n].live = 1;
+    printf("id=%d", pf_n++); pf_tail();
+    return;
+  }
+  if (!strcmp(op, "destroy") && !strcmp(tv[2], "nil")) {
+    printf("r=%d", (int) iwpool_destroy(0)); pf_tail();
+    return;
+  }
+  int id;
+  struct iwpool *p = n > 2 ? pf_arg(tv[2], &id) : 0;
+  if (!p) { printf("dead\n"); return; }
+  if (!strcmp(op, "ref")) {
+    printf("refs=%d", iwpool_ref(p));
+  } else if (!strcmp(op, "destroy")) {
+    printf("r=%d", (int) iwpool_destroy(p));
+  } else if (!strcmp(op, "freefn")) {
+    iwpool_free_fn(p);
+    printf("r=-");
+  } else if (!strcmp(op, "alloc")) {
+    size_t sz = strtoul(tv[3], 0, 10);
+    char *m = iwpool_alloc(sz, p);
+    if (m) memset(m, 0x40 + (id & 31), sz);
+    printf("p=%d", m != 0); po_where(p, m, sz);
+  } else if (!strcmp(op, "put")) {
+    uint8_t *b; size_t l = unhexz(tv[3], &b);
+    // the four exported duplicators in turn
+    iwrc rc = 0;
+    struct pfe *e = &pf[id];
+    int k = strlen((char*) b) == l ? (e->nstr & 3) : (e->nstr & 1);
+    char *m = k == 0 ? iwpool_strndup(p, (char*) b, l, &rc) : k == 1 ? iwpool_strndup2(p, (char*) b, l)
+              : k == 2 ? iwpool_strdup(p, (char*) b, &rc) : iwpool_strdup2(p, (char*) b);
+    e->strs = realloc(e->strs, (e->nstr + 1) * sizeof(char*));
+    e->lens = realloc(e->lens, (e->nstr + 1) * sizeof(size_t));
+    e->strs[e->nstr] = m; e->lens[e->nstr] = l; ++e->nstr;
+    printf("v=");
+    if (m && !rc) puthex(m, l); else printf("nil");
+    po_where(p, m, l + 1);
+    free(b);
+  } else if (!strcmp(op, "chk")) {
+    struct pfe *e = &pf[id];
+    uint32_t c = 0xffffffffu;
+    int term = 1;
+    for (int j = 0; j < e->nstr; ++j) {
+      if (!e->strs[j]) { term = 0; continue; }
+      c = crc_upd(c, e->strs[j], e->lens[j]);
+      if (e->strs[j][e->lens[j]]) term = 0;
+    }
+    printf("n=%d t=%d crc=%08x", e->nstr, term, c ^ 0xffffffffu);
+  } else if (!strcmp(op, "ud")) {
+    int tok = atoi(tv[3]);
+    struct pftok *t = 0;
+    if (tok) { t = calloc(1, sizeof(*t)); t->tok = tok; t->nx = pf_toks; pf_toks = t; }
+    iwpool_user_data_set(p, t, atoi(tv[4]) ? pf_ud_free : 0);
+    printf("ok");
+  } else if (!strcmp(op, "udget") || !strcmp(op, "uddetach")) {
+    struct pftok *t = op[2] == 'g' ? iwpool_user_data_get(p) : iwpool_user_data_detach(p);
+    printf("ud=%d", t ? t->tok : 0);
+  } else {
+    printf("?\n");
+    return;
+  }
+  pf_tail();
+}
+
 int main(void) {
   static char line[1 << 20];
   char *tv[12];
@@ -816,6 +1064,7 @@ int main(void) {
     else if (!strcmp(tv[0], "xs")) xs_line(n, tv);
     else if (!strcmp(tv[0], "av")) av_line(n, tv);
     else if (!strcmp(tv[0], "po")) po_line(n, tv);
+    else if (!strcmp(tv[0], "pf")) pf_line(n, tv);
     else printf("?\n");
   }
   if (hm) iwhmap_destroy(hm);
@@ -826,5 +1075,7 @@ int main(void) {
   if (xs) iwxstr_destroy(xs);
   av_free();
   if (po) iwpool_destroy(po);
+  pf_cleanup();
+  pq_flush();
   return 0;
 }
